@@ -213,6 +213,8 @@ theorem finishReal_ok (hc : e ≤ c.length) (neg : Bool) (num off tmp start : Na
     exact ⟨r', rfl, fun hk => absurd (tailLoop_inl c e num _ _ _ _ r' h1) hk⟩
   | inr t =>
     simp only
+    split
+    · exact ⟨_, rfl, fun hk => absurd rfl hk⟩
     obtain ⟨x, hx1, hx2, _⟩ := realResult_some neg num
       (sub32 (sub32 tmp start) (b2n (!fo && hasDot)))
       (adjustExponent fo off dotOff (if fo = true then add32 (sub32 (sub32 tmp start) (b2n (!fo && hasDot))) (sub32 (sub32 start dotOff) 1)
